@@ -1,3 +1,4 @@
+#![recursion_limit = "512"]
 //! ssim: deterministic simulation of beff compile sessions (C04, C10, C14) + tools for jsim.
 mod coord;
 mod edits;
